@@ -337,7 +337,13 @@ def hocur_case(draw):
     m = draw(st.sampled_from([1, 2, 3, 4, 6]))
     p = draw(st.integers(1, 4))
     phi = [[fn_spec(draw, d) for _ in range(draw(st.sampled_from([1, 2, 3, 3])))] for _ in range(p)]
-    return {'d': d, 'm': m, 'phi': phi, 'seed': draw(gen.SEED), 'duplicate': draw(st.sampled_from([False, False, True])),
+    x_scale_exp = 0
+    if d >= 2 and p <= 3 and draw(st.sampled_from([False, False, False, False, True])):
+        # coordinate functions only: the tensor is homogeneous of degree p in the data, so data in other units (1e-9, 1e-7, 1e3) give
+        # the same tensor up to a factor (1e-27 ... 1e9) -- requested ranks >= true ranks means the same in every unit
+        phi = [[{'family': 'identity', 'index': i} for i in draw(st.lists(st.integers(0, d - 1), min_size=2, max_size=d, unique=True))] for _ in range(p)]
+        x_scale_exp = draw(st.sampled_from([-9, -7, 3, 0]))
+    return {'d': d, 'm': m, 'phi': phi, 'seed': draw(gen.SEED), 'duplicate': draw(st.sampled_from([False, False, True])), 'x_scale_exp': x_scale_exp,
             'ranks_extra': draw(st.integers(0, 3)), 'repeats': draw(st.integers(1, 3)), 'multiplier': draw(st.sampled_from([2, 3, 10])),
             'ranks_list': draw(st.booleans()), 'reuse_ranks': draw(st.booleans()),
             'data_form': draw(st.sampled_from(['float', 'float', 'strided', 'fortran', 'readonly']))}
@@ -345,6 +351,9 @@ def hocur_case(draw):
 
 def body_hocur(case):
     x = data(case)
+    rescaled = bool(case.get('x_scale_exp', 0)) and case.get('data_form', 'float') == 'float'
+    if rescaled:
+        x = np.asarray(x, dtype=float) * 10.0 ** case['x_scale_exp']
     phi = [[make_fn(s) for s in f] for f in case['phi']]
     vals = [np.array([[ref_value(s, x[:, j]) for j in range(case['m'])] for s in f]) for f in case['phi']]
     want = psi_ref(vals)
@@ -375,12 +384,14 @@ def body_hocur(case):
     require_consistent(t, 'consistent')
     n = [len(f) for f in phi]
     require(t.row_dims == n + [case['m']] and t.col_dims == [1] * (p + 1), 'dims', 'hocur rows %s' % t.row_dims)
-    close(dense.contract(t.cores).reshape(n + [case['m']]), want, 1e-7, 1e-3 + np.max(np.abs(want)), 'hocur_value', 'hocur reconstruction')
+    close(dense.contract(t.cores).reshape(n + [case['m']]), want, 1e-7, (0.0 if rescaled else 1e-3) + np.max(np.abs(want)), 'hocur_value', 'hocur reconstruction')
     lab = general_labels(case)
     if case['ranks_list'] and case.get('reuse_ranks') and case['m'] >= 2:
         lab.add('ranks_list_reused')
     if case['seed'] % 3 == 0 and case['m'] >= 2:
         lab.add('basis_used_before')
+    if rescaled:
+        lab.add('rescaled_data')
     lab.add('repeats%d' % case['repeats'])
     return lab
 
